@@ -265,5 +265,18 @@ Definition dispatch_rtp (op : Z) (args : list tok) : value :=
              end]
     | None => VBad
     end
+  | 502, [TBytes w; TList ops] =>
+    match header_unmarshal_into empty_header w with
+    | Ok r =>
+      let '(h1, rs) := run_ext_ops (hr_header r) ops in
+      let m := header_marshal h1 in
+      VList [VList rs; v_header h1; v_res VBytes m;
+             match m with
+             | Ok bs => v_res (fun r => v_header (hr_header r)) (header_unmarshal_into empty_header bs)
+             | _ => VUnit
+             end]
+    | Err e => VTag 1 (VInt (err_obs e))
+    | Panic => VTag 2 VUnit
+    end
   | _, _ => VBad
   end.
